@@ -79,3 +79,10 @@ Theorem C04_go_recover_counters : forall puts dels dbytes rlen : N,
   = (Z.of_N (u32 (dels + 1)), Z.of_N (u32 (dbytes + u32 rlen))).
 Proof. exact recover_counters_ok. Qed.
 Print Assumptions C04_go_recover_counters.
+
+(* the recovering Open runs alone: the background worker (periodic Sync and compaction) is started only
+   after recover() has returned (regenerated call skeleton of Open) *)
+From Pogreb Require Import ShapeCheck.
+Theorem C04_recovery_runs_alone : open_worker_after_recovery = true.
+Proof. exact shape_open_worker_after_recovery. Qed.
+Print Assumptions C04_recovery_runs_alone.
